@@ -42,6 +42,9 @@ PI8 = 8 * math.pi ** 2
 ELEMENTS = ["H", "C", "N", "O", "Na", "Cl", "Fe", "Cd", "Se", "U", "I", "In", "Ni", "D",
             "Na1+", "Cl1-", "O2-", "Fe3+", "Ti4+", "Pb2+"]
 SHORT_ELEMENTS = [e for e in ELEMENTS if len(e) <= 2]
+# one element in several oxidation states (the formats that carry the charge must keep the atoms apart)
+VALENCE_FAMILIES = [["Fe", "Fe3+", "Fe2+"], ["O", "O2-", "O1-"], ["Na", "Na1+"], ["Cl", "Cl1-"], ["Ti4+", "Ti3+", "Ti"],
+                    ["Mn2+", "Mn3+", "Mn4+"], ["Cu1+", "Cu2+", "Cu"]]
 TITLES = ["", "NaCl", "cadmium selenide  bulk", "  padded title  ", "#1 test", "a,b;c 'q' \"d\"",
           "title atoms cell format", "x" * 59 + " tail word and more words to wrap the record",
           "0", "12 13", "étude α-Fe", "tab\there", "title"]
@@ -214,6 +217,8 @@ def gen_spec(rng, fmt, natoms=None):
     pool = SHORT_ELEMENTS if fmt == "pdb" else ELEMENTS
     nel = rng.choice([1, 2, 3])
     els = [rng.choice(pool) for _ in range(nel)]
+    if fmt != "pdb" and rng.random() < 0.25:
+        els = list(rng.choice(VALENCE_FAMILIES))           # mixed valence: same bare symbol, different charges
     atoms = []
     raw_noel = fmt == "rawxyz" and rng.random() < 0.25
     for _ in range(natoms):
